@@ -451,3 +451,12 @@ Qed.
 (* F-C01b: a memory-backed array adopts the dtype of the first part *)
 Lemma mem_dtype_refuted_lemma : stored_dtype false 3 [4] <> 3 /\ stored_dtype true 3 [4] = 3.
 Proof. split; [discriminate|reflexivity]. Qed.
+
+(* Outside the property's histories: clear() while data is staged keeps the staging fill levels
+   (fields.py:635-638 resets only _accumulated), so the abandoned entry resurfaces in the next write.
+   Observed identically on the real code (write_part(['a']); clear(); write(['b']) reads back ['a','']). *)
+Lemma clear_with_staged_data_lemma :
+  hist_ok false [OpPart [[97]]; OpClear; OpWrite [[98]]] = false
+  /\ iw_history true 2 [OpPart [[97]]; OpClear; OpWrite [[98]]] = Ok ([0; 1; 1], [97; 98])
+  /\ hist_written [] [OpPart [[97]]; OpClear; OpWrite [[98]]] = [[98]].
+Proof. repeat split; vm_compute; reflexivity. Qed.
